@@ -445,7 +445,7 @@ func run(c Case) kit.Result {
 var spec = kit.Spec[Case]{
 	Prop: "C17", Name: "main",
 	Rule: "BasicDirectory in block-size mode (directly or inside a DynamicDirectory), mode 0..07777, mtime over sign/nanosecond classes, 1-10 names of 0..300 bytes (varint boundaries), targets over CIDv0/v1 x hash lengths (incl. truncated, identity) with Tsize over varint length classes 0..2^63-1, 1-25 (thorough 40) ops add/replace/remove/remove-missing/reload; estimate == len(RawData()) after every step; non-trivial = a replacement changed the Tsize varint class, or the mtime is negative / has nanoseconds (mode classes with type bits are executed but only counted)",
-	Quick: 4000, Thorough: 25000,
+	Quick: 20000, Thorough: 100000,
 	Gen: gen, Run: run,
 }
 
